@@ -24,7 +24,7 @@ claim("C03", "exploration", "Hypothesis-generated (request, reply) pairs built b
       "invalid codes and lengths, replies of other services, echo-changed and length-broken replies are generated; helpers.parse_pdu must accept / raise RequestResponseMismatch / "
       "raise MalformedResponse as the reference matcher says. The NRC -> exception-class table is enumerated exhaustively. Exploration over an unbounded pair space.",
       "Trusts the reference matcher and reply builders (vf/refcodec.py). Abstains where the statement defines no echo (requests that stay raw) and between mismatch/malformed when a changed echo also breaks the format.")
-claim("C04", "fault_enumeration", "Exhaustive enumeration of transport-event scripts (length <= 3 quick / <= 4 thorough) x max_retry, Hypothesis scripts with per-request overrides, long pending/silence runs; reference retry/pending machine; virtual time",
+claim("C04", "fault_enumeration", "Exhaustive enumeration of transport-event scripts (length <= 3 quick / <= 5 thorough) x max_retry, Hypothesis scripts with per-request overrides, long pending/silence runs; reference retry/pending machine; virtual time",
       "Every script over the ten-event alphabet up to the length bound is run against the real UDSClient.request over a scripted transport under virtual time and compared with a "
       "reference retry/pending machine (outcome, number of transmissions, reconnects, no transmission while pending, bounded duration). Fault enumeration: the bounded script space is "
       "covered completely; longer scripts and overrides are sampled.",
@@ -68,7 +68,8 @@ claim("C06", "exploration", "Enumerated activation grid (types x response codes)
 claim("C08", "fault_enumeration", "Exhaustive enumeration of cut offsets x cut kinds per generated exchange for four transports, at transport and client level, under virtual time with a scripted restartable peer",
       "For each generated exchange the peer's byte stream is cut at every byte offset with EOF / reset / silence, with and without a caller timeout; transport operations must end in bounded time with "
       "timeout / connection error / end-of-stream and never return incomplete data; UDSClient with retries and ECU.wait_for_ecu must recover through a reconnect once the peer accepts connections again; "
-      "close() twice is harmless. Fault enumeration: all cut points of each exchange are covered; exchanges themselves are sampled.",
+      "close() twice or after the loss is harmless. The client-level exchange also runs with a ResponsePending in front of the final reply (with and without a retry left); DoIP peers come back after up to 9.55 s. "
+      "Fault enumeration: all cut points of each exchange are covered; exchanges themselves are sampled.",
       "Loss is modelled as what asyncio's stream layer delivers (feed_eof / set_exception + failing writer / nothing); open_connection is patched in the harness process.")
 claim("C09", "exploration", "Hypothesis-generated session-transition graphs (and RandomUDSServer models) x depth x skip x thorough; the real SessionsScanner runs in-process under virtual time; BFS reference oracle",
       "The real SessionsScanner.run() is executed against a reference session-graph ECU (arbitrary directed graphs with cycles, long chains, islands, silent edges, three NRC variants) and against RandomUDSServer models; "
@@ -89,11 +90,15 @@ claim("C12", "exploration", "Hypothesis-generated recording histories against Ra
       "Presupposition of the statement is checked per step (client state == recorded ECU state); suppressed state-changing requests are excluded because the client cannot observe them; unanswered requests in a non-default state are a recorded known finding.")
 claim("C15", "fault_enumeration", "Enumerated grid (thorough) / Hypothesis sample (quick) of exit kind x lifecycle point x resource switches x command kind; the real entry_point() runs in-process; artefacts read back from disk with independent tools",
       "Tiny AsyncScript / Scanner / UDSScanner subclasses fail as scripted at every lifecycle point with every exit kind, with artifacts dir, database, lock file and hooks each on or off, with failing and missing hooks and an "
-      "unopenable database; the return value, META.json, the compressed log, the lock file, the run_meta row and the hook environments are read back and must be mutually consistent and follow the documented exit-code mapping. "
+      "unopenable database (directory, not a database, other schema version), failing / missing / signal-killed hooks, injected faults at database close and commands that adjust their own configuration; the return value, META.json "
+      "(exit code, times, the start configuration), the compressed log, the lock file, the run_meta row, the hook environments and the warnings about failing hooks are read back and must be mutually consistent and follow the "
+      "documented exit-code mapping; no non-daemon thread may outlive the run. The same is observed from outside on the real command line in child processes (process ends, exit status = META = database). "
       "Fault enumeration: the grid is finite and covered completely in the thorough tier.",
-      "KeyboardInterrupt raised inside the coroutine stands for Ctrl-C; db-close faults are not generated.")
+      "KeyboardInterrupt raised inside the coroutine stands for Ctrl-C (no signal delivery); database faults are injected by patching DBHandler methods.")
 claim("C18", "exploration", "Enumeration of every (command, option, source subset) cell with generated distinct values through gallia's own parser construction; declared-metadata ground truth from the GALLIA_VERIF hook; JSON round-trip; template scan",
-      "For each of the 34 commands every non-hidden option of a modelled type is given values through each subset of {CLI, env, file}; the effective value must come from the highest-priority source, invalid values must exit 2 naming "
-      "their source, the dumped configuration must re-create an equal configuration, every declared Field() must keep its CLI/config metadata after model construction, and the template must list every file-configurable option. "
+      "For each command of the tree every non-hidden option of a modelled type (bool, int, float, str, path, AutoInt, HexInt, HexBytes, Ranges, EnumArg, TargetURI, optional and positional forms, const flags given bare) is given values "
+      "through each subset of {CLI, env, file}; the effective value must come from the highest-priority source, invalid values must exit 2 naming the source they came from (also when a lower-priority source holds a valid value), "
+      "the dumped configuration must re-create an equal configuration, every declared Field() must keep its CLI/config metadata after model construction, the template must list every file-configurable option, be valid TOML and be "
+      "accepted as config file by every command. "
       "The cell grid is enumerated; values are sampled (three rotations in the thorough tier).",
       "Declared metadata recorded by the guarded hook in GalliaBaseModel.__init_subclass__; required options are satisfied by a solver; option types outside the modelled kinds are counted as skipped.")
